@@ -502,7 +502,7 @@ func (t *taintEngine) compute(v ssa.Value) bool {
 // with the failing edge leading to failure returns only; a discarded error is
 // accepted only if the same argument is INT-guarded by delegation.
 func ruleErrUsed(w *World, r *Report, in map[*ssa.Function]bool) {
-	r.Rule("PARSE-BASE", "every strconv.ParseInt applied to caller text uses the constant base 10")
+	r.Rule("PARSE-BASE", "every strconv.ParseInt applied to caller text uses the constant base 10; caller text is not parsed with the lenient fmt.Sscan family (which accepts trailing garbage)")
 	r.Rule("ERRUSED", "the error of every strconv.Atoi/ParseInt/ParseFloat applied to text derived from a caller's string is tested and its non-nil edge leads only to failure returns; an error that is discarded or overwritten before being read is a violation unless the same argument always fails in a validating callee under the parse-failure scenario")
 	t := taintFor(w)
 	e := scFor(w)
@@ -515,9 +515,14 @@ func ruleErrUsed(w *World, r *Report, in map[*ssa.Function]bool) {
 			continue
 		}
 		name := w.FuncName(f)
-		ord := 0
+		ord, ordScan := 0, 0
 		instrs(f, func(ins ssa.Instruction) {
 			c, ok := ins.(*ssa.Call)
+			if ok && (calleeIs(c, "fmt", "Sscanf") || calleeIs(c, "fmt", "Sscan") || calleeIs(c, "fmt", "Sscanln")) && len(c.Call.Args) > 0 && (t.tainted(c.Call.Args[0]) || can) {
+				ordScan++
+				r.Add(Obligation{Rule: "PARSE-BASE", Key: fmt.Sprintf("PARSE-BASE / %s / scan#%d", name, ordScan), Pos: w.Pos(c.Pos()), Status: Violated, Detail: "caller text is parsed with fmt." + calleeOf(c).Name() + ", which stops at the first character that does not fit and ignores the rest (\"5x\", \"1/2/3/4/5/6\" are accepted): ID fields must be parsed strictly -- " + shortInstr(c), Canary: can})
+				return
+			}
 			if !ok || !(calleeIs(c, "strconv", "Atoi") || calleeIs(c, "strconv", "ParseInt") || calleeIs(c, "strconv", "ParseFloat")) {
 				return
 			}
